@@ -9,7 +9,7 @@ Definition ex_oh0 : overheads := {| oh_loop := 0; oh_alloc := 0; oh_dealloc := 0
 (** Test mode, explicit size 4, three threads. *)
 Definition ex_test_cfg : cfg :=
   {| c_test := true; c_count := Some 5; c_size := Some 4; c_min := 9000; c_max := 1000; c_skip := false;
-     c_freq := 1000000000000; c_prec := 1; c_oh := ex_oh0; c_input_counts := true |}.
+     c_freq := 1000000000000; c_prec := 1; c_oh := ex_oh0; c_input_counts := {| q_bytes := true; q_chars := false; q_cycles := false; q_items := true |} |}.
 
 Example test_mode_example :
   c_test ex_test_cfg = true /\ zero_case ex_test_cfg = false /\
@@ -20,16 +20,16 @@ Proof. split; [reflexivity|]. split; [reflexivity|]. eexists. split; [vm_compute
 (** Zero cases in both modes. *)
 Example zero_example :
   bench_loop {| c_test := true; c_count := Some 0; c_size := None; c_min := 5; c_max := 7; c_skip := true;
-                c_freq := 1; c_prec := 1; c_oh := ex_oh0; c_input_counts := false |} 0 ex_hist
+                c_freq := 1; c_prec := 1; c_oh := ex_oh0; c_input_counts := qconst false |} 0 ex_hist
   = Ok (Done (init_state {| c_test := true; c_count := Some 0; c_size := None; c_min := 5; c_max := 7; c_skip := true;
-                c_freq := 1; c_prec := 1; c_oh := ex_oh0; c_input_counts := false |})).
+                c_freq := 1; c_prec := 1; c_oh := ex_oh0; c_input_counts := qconst false |})).
 Proof. reflexivity. Qed.
 
 (** A time ceiling that binds: n = 5 on two threads would take three rounds,
     max_time = 700 ps is reached by the second round's latest end (720). *)
 Definition ex_max_cfg : cfg :=
   {| c_test := false; c_count := Some 5; c_size := Some 3; c_min := 5000; c_max := 700; c_skip := false;
-     c_freq := 1000000000000; c_prec := 1; c_oh := ex_oh0; c_input_counts := false |}.
+     c_freq := 1000000000000; c_prec := 1; c_oh := ex_oh0; c_input_counts := qconst false |}.
 
 Example max_priority_example :
   c_test ex_max_cfg = false /\ has_samples ex_max_cfg = true /\
@@ -46,7 +46,7 @@ Qed.
 (** skip_ext_time: three rounds of 300 / 330 / 300 ps count as 1000 ps each. *)
 Definition ex_skip_cfg : cfg :=
   {| c_test := false; c_count := Some 1; c_size := Some 3; c_min := 3000; c_max := u128_max; c_skip := true;
-     c_freq := 1000000000000; c_prec := 1; c_oh := ex_oh0; c_input_counts := false |}.
+     c_freq := 1000000000000; c_prec := 1; c_oh := ex_oh0; c_input_counts := qconst false |}.
 
 Example skip_floor_example :
   elapsed_after ex_skip_cfg 0 ex_hist 3 = 3000 /\
